@@ -65,17 +65,17 @@ def record(kind, mid, prop, chk, tests_ok, rc, first, tier):
 def main():
     args = sys.argv[1:]
     mode = args[0] if args else "calibration"
-    sel = [a for a in args[1:] if not a.startswith("--")]
+    # positional selectors = everything that is not an option or an option's value
+    opt_with_value = ("--tier", "--checks", "--sandbox")
+    sel = [a for i, a in enumerate(args[1:], 1) if not a.startswith("--") and args[i - 1] not in opt_with_value]
     tier = "quick"
     checks = None
     if "--tier" in args: tier = args[args.index("--tier") + 1]
     if "--checks" in args:
         checks = args[args.index("--checks") + 1].split(",")
         if checks == ["all"]: checks = [f"C{i:02d}" for i in range(1, 20)]
-    sel = [s for s in sel if s not in (tier,) and (checks is None or s != ",".join(checks))]
     if "--sandbox" in args:
         sb = args[args.index("--sandbox") + 1]
-        sel = [x for x in sel if x != sb]
         if "--cleanup" in args:
             cleanup_sandbox(sb); return
         make_sandbox(sb)
